@@ -1052,7 +1052,8 @@ impl SolarDay {
       y += 1;
       i = 0;
     }
-    let mut term: SolarTerm = SolarTerm::from_index(y, i as isize);
+    // 从下一个节气开始往前找（儒略历时期及远期的节气日期相对公历月份有偏移）
+    let mut term: SolarTerm = SolarTerm::from_index(y, i as isize + 1);
     let mut day: SolarDay = term.get_julian_day().get_solar_day();
     while self.is_before(day) {
       term = term.next(-1);
@@ -1559,7 +1560,8 @@ impl SolarTime {
       y += 1;
       i = 0;
     }
-    let mut term: SolarTerm = SolarTerm::from_index(y, i as isize);
+    // 从下一个节气开始往前找（儒略历时期及远期的节气日期相对公历月份有偏移）
+    let mut term: SolarTerm = SolarTerm::from_index(y, i as isize + 1);
     while self.is_before(term.get_julian_day().get_solar_time()) {
       term = term.next(-1);
     }
